@@ -7,14 +7,14 @@ from vlib.worker import exc_key
 
 PROPERTY = 'C09'
 LEVEL = 'exploration'
-RULE = ('Generated conformant documents of every selectable map (1-2 sets, 1-2 groups, 1-2 interchanges, repeated loops) are iterated with the real X12ContextReader.iter_segments(L) for '
+RULE = ('Generated conformant documents of every selectable map (1-2 sets, 1-2 groups, 1-2 interchanges, repeated loops, a third with the instances of same-position sibling loops interleaved) are iterated with the real X12ContextReader.iter_segments(L) for '
         'L = None, every segment-anchored loop id of the map that occurs in the document (incl. ISA_LOOP, GS_LOOP, ST_LOOP; sampled in the quick tier), and one loop id absent from the document. '
         'Oracles: the yielded nodes\' segments concatenated equal the tokenised source exactly; every tree is rooted at L and holds precisely one generated instance of L (maximal run); inside a '
         'tree each segment\'s ancestor loop ids equal its intended map path below L and child loop nodes are in bijection with generated loop instances; iterate_segments() order equals the tree '
         'order; seg_count equals the recounted position in the set and cur_line_number the ordinal in the file. non-trivial = distinct (map, L) pairs that yielded >=1 tree.')
 ASSUMPTIONS = ['the intended map path and loop instance of each segment are the generator\'s ground truth',
                'position in the set is not asserted for ISA/GS/GE/IEA (they are outside any set)']
-REQUIRED_COUNTERS = ['runs', 'runs:None', 'runs:absent-loop', 'trees', 'segments-compared', 'tree-segments-compared', 'runs:ISA_LOOP', 'runs:ST_LOOP']
+REQUIRED_COUNTERS = ['docs:sibling-loops-interleaved', 'runs', 'runs:None', 'runs:absent-loop', 'trees', 'segments-compared', 'tree-segments-compared', 'runs:ISA_LOOP', 'runs:ST_LOOP']
 MIN_CASES = {'quick': 800, 'thorough': 20000}
 WATCHDOG_S = {'quick': 1200, 'thorough': 7200}
 
@@ -173,7 +173,8 @@ def run(ctx):
                 continue
             rng = ctx.sub_rng('c09', label, k)
             kw = dict(fill=[0.3, 0.6][k % 2], opt_prob=[0.5, 0.8, 1.0][k % 3], maxrep=[2, 3, 1][k % 3], charset='E', rich=False,
-                      n_isa=2 if k % 4 == 3 else 1, n_gs=2 if k % 3 == 2 else 1, n_st=[2, 1][k % 2])
+                      n_isa=2 if k % 4 == 3 else 1, n_gs=2 if k % 3 == 2 else 1, n_st=[2, 1][k % 2],
+                      interleave=(k % 3 == 1), force_xyx=(k % 6 == 4))      # sibling loops of one map position in shuffled order (e.g. 2310B before 2310A)
             seed = zlib.crc32(repr((ctx.seed, label, k)).encode())
             try:
                 doc = gen_doc.gen_document(e, seed, **kw)
@@ -184,6 +185,8 @@ def run(ctx):
                 ctx.count('skipped-large')
                 continue
             text = doc.text()
+            if doc.meta.get('interleaved_groups'):
+                ctx.count('docs:sibling-loops-interleaved')
             ids = loop_ids_for(doc)
             if ctx.quick and len(ids) > 9:
                 inner = [x for x in ids if x not in ('ISA_LOOP', 'GS_LOOP', 'ST_LOOP')]
